@@ -75,6 +75,8 @@ impl Prop for C09 {
             explicit_gate: gate != 2,
             flushes: vec![],
             buffered: false,
+            gate_calls: vec![],
+            trace: false,
             inbound,
             reads,
             writes: vec![],
@@ -156,6 +158,15 @@ impl Prop for C09 {
             explicit_gate: verify || rng.chance(1, 2),
             flushes: vec![],
             buffered: false,
+            // the setter may be called any number of times: the last call decides
+            gate_calls: if rng.chance(1, 4) {
+                let mut g: Vec<bool> = (0..rng.usize(1, 3)).map(|_| rng.chance(1, 2)).collect();
+                g.push(verify);
+                g
+            } else {
+                vec![]
+            },
+            trace: false,
             inbound,
             reads,
             writes,
@@ -179,6 +190,9 @@ impl Prop for C09 {
             r.probe("gate_off_explicit_runs");
         } else {
             r.probe("gate_off_default_runs");
+        }
+        if sc.gate_calls.len() >= 2 && sc.gate_calls.iter().any(|g| *g != sc.verify_version) {
+            r.probe("gate_switched_back_and_forth");
         }
         if sc.ops.iter().any(|o| matches!(o, AppOp::Handshake(f) if f.len() > 8 && f[8] != 9)) {
             r.probe("handshake_asked_for_other_version");
@@ -214,6 +228,7 @@ impl Prop for C09 {
             "gate_off_explicit_runs",
             "gate_off_default_runs",
             "handshake_asked_for_other_version",
+            "gate_switched_back_and_forth",
         ]
     }
 }
